@@ -71,8 +71,17 @@ class Gen:
                 if r.random() < .4:
                     lb, ub = F(0), (INTMAX if k == 'I' else REALMAX)
                 else:
-                    lb = F(r.randint(-40, 8), r.choice([1, 1, 2, 8]) if k == 'R' else 1)
-                    ub = lb + F(r.randint(0, 60), r.choice([1, 1, 4]) if k == 'R' else 1)
+                    # whole, fractional and negative bounds for INTEGER as well as REAL (an INTEGER variable only needs
+                    # one integer between its bounds), and the extreme values of the vartype
+                    m = r.random()
+                    if m < .12:
+                        big = INTMAX if k == 'I' else REALMAX
+                        lb, ub = r.choice([(-big, big), (-big, F(r.randint(-9, 9), 2)), (F(r.randint(-9, 9), 4), big), (F(-2 ** 40), F(2 ** 40) + F(1, 2))])
+                    else:
+                        lb = F(r.randint(-320, 64), r.choice([1, 1, 2, 4, 8]))
+                        ub = lb + F(r.randint(0, 480), r.choice([1, 1, 2, 4, 8]))
+                    if k == 'I' and -(-lb.numerator // lb.denominator) > ub.numerator // ub.denominator:
+                        ub += 1          # dimod wants at least one integer between the bounds
             self.vars.append((gen_label(r, used, long=(r.random() < (.08 if not wrapmode else .02))), k, lb, ub))
         self.obj = self.gen_expr(r, allow_empty=True, wrapmode=wrapmode)
         self.cons = []
@@ -347,7 +356,8 @@ def run(ctx):
             for v, k, lb, ub in bvars:
                 k0, lb0, ub0 = info[v]
                 if k != k0 or (k != 'B' and (lb, ub) != (lb0, ub0)):
-                    what = ('vartype or bounds', f'{v!r}: written ({k0},{lb0},{ub0}) read ({k},{lb},{ub})',
+                    what = ('vartype' if k != k0 else {'I': 'INTEGER', 'R': 'REAL'}[k0] + ' bounds' + (' (fractional)' if lb0.denominator != 1 or ub0.denominator != 1 else ''),
+                            f'{v!r}: written ({k0},{lb0},{ub0}) read ({k},{lb},{ub})',
                             f'assert (back.vartype({v!r}), back.lower_bound({v!r}), back.upper_bound({v!r})) == (cqm.vartype({v!r}), cqm.lower_bound({v!r}), cqm.upper_bound({v!r}))')
                     break
         if what is None and bobj != merged(list(g.obj[0].items()), [(u, v, b) for (u, v), b in g.obj[1].items()], g.obj[2]):
